@@ -82,6 +82,14 @@ type keyCodec struct {
 func (c *keyCodec) Key(rank int) interface{} { return c.keys[rank-1] }
 func (c *keyCodec) NK() int                  { return len(c.keys) }
 
+// reverse: the universe under the reversed order (a caller-supplied KeyCompare that sorts descending): rank 1 is the largest key
+func (c *keyCodec) reverse() {
+	for i, j := 0, len(c.keys)-1; i < j; i, j = i+1, j-1 {
+		c.keys[i], c.keys[j] = c.keys[j], c.keys[i]
+		c.layers[i], c.layers[j] = c.layers[j], c.layers[i]
+	}
+}
+
 func canonKey(k interface{}) string {
 	switch v := k.(type) {
 	case []byte:
